@@ -174,6 +174,9 @@ Inductive route :=
       (* producer | relay | ... | sink: [stages] pipes (0 = straight to a file);
          the producer writes in pieces of [chunk] bytes (0 = all at once), the sink
          and the relays read with buffers of [cap] bytes *)
+  | RHead (stages : nat) (k : nat) (cap : nat)
+      (* producer | relay | ... | sinkk k: the last command reads [k] bytes and exits
+         without draining its input; the writers must end by EPIPE *)
   | RVar                               (* x=$( producer ); the value of x is observed *)
   | RHere (cap : nat).                 (* sink <<'EOF' ... : the data is the body *)
 
@@ -256,6 +259,11 @@ Fixpoint through_pipes (n : nat) (c : cfg) (chunk cap : nat) (l : list N) : opti
 Definition model_route (c : cfg) (r : route) (l : list N) : option (list N) :=
   match r with
   | RPipe stages chunk cap => through_pipes stages c chunk cap l
+  | RHead stages k cap =>
+      match through_pipes stages c 0 cap l with
+      | Some l' => Some (firstn k l')
+      | None => None
+      end
   | RVar =>
       match through_pipe c 0 (psize c) l with
       | Some l' => Some (strip_nl l')
@@ -267,6 +275,7 @@ Definition model_route (c : cfg) (r : route) (l : list N) : option (list N) :=
 Definition spec_route (r : route) (l : list N) : list N :=
   match r with
   | RPipe _ _ _ | RHere _ => l
+  | RHead _ k _ => firstn k l
   | RVar => firstn (length l - trailing_nl l) l
   end.
 
@@ -388,7 +397,25 @@ Definition run_block (c : cfg) (h : list (bop * bobs * snap)) : verdict :=
   else if negb (cfg_okb c) then 1%N
   else block_hist c new_pipe None h.
 
+(* ------------------------------------------------------------------------ *)
+(* Stream G: the `read` built-in (yash-builtin/src/read/input.rs read_char reads
+   byte by byte until a UTF-8 character is complete) on a pipe whose writer
+   splits multi-byte characters between chunks: `read -r a; read -r b` must
+   give the first two lines of the text, whatever the chunking. *)
+Fixpoint first_line (s : str) : str * str :=
+  match s with
+  | [] => ([], [])
+  | x :: t => if N.eqb x NL then ([], t) else let (l, r) := first_line t in (x :: l, r)
+  end.
+
+Definition run_read (bytes : list N) (a b : str) : verdict :=
+  let text := utf8_lossy bytes in
+  let (l1, rest1) := first_line text in
+  let (l2, _) := first_line rest1 in
+  if str_eqb a l1 && str_eqb b l2 then 0%N else 16%N.
+
 Inductive case :=
+  | CRead (bytes : list N) (a b : str)
   | CBlock (c : cfg) (h : list (bop * bobs * snap))
   | CRaw (bytes : list N) (decoded value : str)
   | CPipe (c : cfg) (h : list (op * obs * snap))
@@ -398,6 +425,7 @@ Inductive case :=
 
 Definition run_case (k : case) : verdict :=
   match k with
+  | CRead bytes a b => run_read bytes a b
   | CBlock c h => run_block c h
   | CRaw b d v => run_raw b d v
   | CPipe c h => run_pipe c h
